@@ -5,7 +5,7 @@
    (idealised pairing).  These are explicit premises of the statements, not axioms. *)
 From Coq Require Import ZArith List.
 From mathcomp Require Import all_ssreflect ssralg poly zmodp.
-From ZC Require Import Model.DKG Model.DKGZ Proof.DKG Proof.DKGLink.
+From ZC Require Import Model.DKG Model.DKGZ Proof.DKG Proof.DKGLink Proof.ThresholdSig.
 Set Implicit Arguments.
 Unset Strict Implicit.
 Unset Printing Implicit Defensive.
@@ -104,6 +104,12 @@ Theorem C34_reconstruct_verifies :
     dkg_verify g2 H e (dkg_pub g2 sk) m (dkg_sign H sk m).
 Proof. exact dkg_reconstruct_verifies. Qed.
 Print Assumptions C34_reconstruct_verifies.
+
+(* The reusable form for users of client threshold keys (C21), proved in Proof/ThresholdSig.v:
+   C34_threshold_signature_of_T_valid_shares_verifies -- any T distinct shares among 1..n
+   reconstruct the original key's signature, which verifies under the original public key; what
+   fewer (or any) distinct shares reconstruct verifies exactly when it is that signature. *)
+Definition C34_threshold_signature_export := C34_threshold_signature_of_T_valid_shares_verifies.
 
 Theorem C34_client_ids_distinct_nonzero :
   forall (F : fieldType) (n : nat),
